@@ -137,10 +137,10 @@ class AutoCheckpoint(Contract):
                         f"{q}:C19:C14:defaults inside the context are the requested ones with both saved flags cleared {tag}")
             p.prove(z3.BoolVal(v is a), f"{q}:C19:the context yields the instance {tag}")
         if not sh["prev"]:
-            p.prove(z3.BoolVal("_checkpoint_defaults" not in a.f), f"{q}:C19:checkpoint defaults removed again on exit {tag}")
+            p.prove(z3.BoolVal("_checkpoint_defaults" not in a.f), f"{q}:C19:C14:checkpoint defaults removed again on exit (the instance stops writing to that file) {tag}")
         else:
             now = a.f.get("_checkpoint_defaults")
-            p.prove(z3.BoolVal(now is g["prev"]), f"{q}:C19:checkpoint defaults restored to the entry object {tag}")
+            p.prove(z3.BoolVal(now is g["prev"]), f"{q}:C19:C14:checkpoint defaults restored to the entry object {tag}")
             if isinstance(now, PyDict):
                 same = set(now.d) == set(g["snap"])
                 p.prove(z3.And([z3.BoolVal(same)] + [I.equal(now.d[k], g["snap"][k]) for k in g["snap"] if k in now.d]),
